@@ -134,6 +134,8 @@ pub fn engine_hist(cases: Vec<Value>, out: &mut NdjsonOut) {
 // parked there has its line on disk (the model's Flush) and holds no log lock.
 const SCHED_POINTS: &[&str] = &[
     "op.start",
+    "compile.head.read",
+    "compile.tail.scanned",
     "nextseq.loaded",
     "log.pre",
     "cache.enter",
